@@ -192,7 +192,8 @@ func (p *Parser) parseComment() ast.Node {
 	isBlockComment := (p.curToken.Type() == token.BLOCKCOMMENT)
 	log.Debugf("parseComment: %#v", r)
 	if isBlockComment {
-		if !strings.HasSuffix(p.curToken.Literal(), "*/") {
+		// (the closing */ can't share its * with the opening /*: "/*/" is not closed.)
+		if lit := p.curToken.Literal(); len(lit) < 4 || !strings.HasSuffix(lit, "*/") {
 			log.LogVf("parseComment: block comment not closed: %s", p.curToken.DebugString())
 			p.continuationNeeded = true
 			return nil
